@@ -34,3 +34,128 @@ Theorem edns_version_roundtrip : forall v ef, 0 <= v < 256 ->
   Z.shiftr (Z.land (use_edns_flags v ef) 16711680) 16 = v.
 Proof. exact edns_version_split. Qed.
 Print Assumptions edns_version_roundtrip.
+
+(* ------------------------------------------------------------------------------------------ *)
+From DV Require Import Proofs.NameOrder Proofs.NameValid Proofs.NameCompress.
+From DV Require Import Proofs.MessageName Proofs.MessageRender Proofs.MessageRead Proofs.MessageRoundtrip Proofs.MessageRoundtrip2.
+
+(* Rendering a well-formed ordinary message (any opcode but UPDATE; EDNS with any flags, extended
+   rcode, version, payload and generic options; no TSIG record; absolute names, no origin) without
+   a size overflow and parsing the octets yields the same id and flags (hence opcode and rcode, see
+   the bit theorems above), the same EDNS state, and in every section the same record sets in the
+   same order with the same TTLs and RDATA, names equal up to ASCII case (the library's name
+   equality; compression is case-insensitive).  _partial: the TSIG record, rendering with an
+   origin and the dynamic-update forms are covered by the correspondence and the oracle only. *)
+Theorem render_parse_partial : forall m max_size request_payload w,
+  WfMsg m -> mtsig m = None ->
+  to_wire m None max_size request_payload false 0 = Ok w ->
+  exists m', from_wire w None po0 = Ok m' /\ msg_equiv m' m.
+Proof. exact render_parse_lemma. Qed.
+Print Assumptions render_parse_partial.
+
+(* the header counts equal the records present: the chains of records laid out from offset 12
+   account for every octet of the message *)
+Theorem counts_exact : forall m max_size request_payload w,
+  WfMsg m -> mtsig m = None -> to_wire m None max_size request_payload false 0 = Ok w ->
+  exists body,
+    w = hdr_bytes (mid m) (mflags m) (zlen (mq m)) (rr_count (man m)) (rr_count (mau m))
+                  (rr_count (mad m) + opt_count (mopt m)) ++ body /\
+    exists (qs : list qd) (ds1 ds2 ds3 : list rrd) (e0 e1 e2 e3 : nat),
+      zlen qs = zlen (mq m) /\ zlen ds1 = rr_count (man m) /\ zlen ds2 = rr_count (mau m) /\
+      zlen ds3 = rr_count (mad m) /\
+      QChain w 12 qs e0 /\ Chain w e0 ds1 e1 /\ Chain w e1 ds2 e2 /\ Chain w e2 ds3 e3 /\
+      match mopt m with
+      | Some o' => exists owner' wb, RRreads w e3 owner' tOPT (opayload o') (oflags o') [FRest] [PB wb] (length w)
+      | None => e3 = length w
+      end.
+Proof. exact counts_exact_lemma. Qed.
+Print Assumptions counts_exact.
+
+(* every name the renderer writes keeps the compression table sound (each entry's offset decodes,
+   by the fuel-free decoding relation Dec = NameM.from_wire, to a name ci-equal to its key) and is
+   recovered by the independent decoder NameM.from_wire and by the reader's decoder *)
+Theorem name_write_sound : forall n c file t file' t',
+  TableSound file t -> name_ok n -> name_to_wire n None c file t = Ok (file', t') ->
+  exists em n',
+    file' = file ++ em /\ TableSound file' t' /\ ci_equal n' n /\
+    NameM.from_wire file' (length file) = Ok (n', length em) /\
+    (forall ext endp, (length file' <= endp)%nat -> nm_from_wire (file' ++ ext) endp (length file) = Ok (n', length file')).
+Proof. exact name_write_sound_lemma. Qed.
+Print Assumptions name_write_sound.
+
+(* ... and the invariant holds for the final octets (after the header has been written) *)
+Theorem render_table_sound : forall m max_size request_payload r,
+  WfMsg m -> mtsig m = None -> to_wire_st m None max_size request_payload false 0 = Ok r ->
+  TableSound (out r) (tbl r).
+Proof. exact render_table_sound_lemma. Qed.
+Print Assumptions render_table_sound.
+
+(* ---- non-vacuity: a response with shared suffixes, a case variant, MX/NS/SOA names and EDNS ---- *)
+Definition n_ex : name := [[101; 120]; [99; 111; 109]; []].                 (* ex.com. *)
+Definition n_www : name := [[119; 119; 119]; [101; 120]; [99; 111; 109]; []]. (* www.ex.com. *)
+Definition n_WWW : name := [[87; 87; 87]; [69; 88]; [99; 111; 109]; []].      (* WWW.EX.com. *)
+Definition ex_m : msg :=
+  mkMsg 4660 33152
+        [mkRR n_www 1 15 0 None 0 []]
+        [mkRR n_www 1 15 0 None 300 [[PB [0; 10]; PN [[109]; [101; 120]; [99; 111; 109]; []]];
+                                     [PB [0; 20]; PN n_WWW]];
+         mkRR n_WWW 1 1 0 None 60 [[PB [1; 2; 3; 4]]]]
+        [mkRR n_ex 1 6 0 None 3600 [[PN n_www; PN n_ex; PB (repeat 0 20)]]]
+        [mkRR n_ex 1 16 0 None 5 [[PB [2; 104; 105]]]]
+        (Some (mkOpt 32768 1232 [(65001, [1; 2; 3])])) None.
+
+Ltac pieces := repeat (cbn [piece_ok]; first [assumption | exact Logic.I | reflexivity | constructor]).
+Ltac solve_name_ok := split; [repeat split; [repeat constructor; vm_compute; discriminate | vm_compute; discriminate | repeat constructor; discriminate] | reflexivity].
+
+Lemma ex_m_wf : WfMsg ex_m.
+Proof.
+  assert (N1 : name_ok n_www) by solve_name_ok.
+  assert (N2 : name_ok n_WWW) by solve_name_ok.
+  assert (N3 : name_ok n_ex) by solve_name_ok.
+  assert (N4 : name_ok [[109]; [101; 120]; [99; 111; 109]; []]) by solve_name_ok.
+  constructor; cbn [ex_m mflags mq man mau mad mopt].
+  - reflexivity.
+  - constructor; [exact N1|constructor].
+  - constructor; [|constructor; [|constructor]].
+    + unfold wf_rrset. cbn [rname rdeleting rrds rtype rttl rclass rcovers].
+      split; [exact N1|]. split; [reflexivity|]. split; [discriminate|]. split; [discriminate|]. split; [discriminate|].
+      split; [lia|]. split.
+      { exists [FFix 2; FNameC]. split; [reflexivity|].
+        pieces. }
+      split; [repeat constructor|]. split; [repeat constructor; reflexivity|discriminate].
+    + unfold wf_rrset. cbn [rname rdeleting rrds rtype rttl rclass rcovers].
+      split; [exact N2|]. split; [reflexivity|]. split; [discriminate|]. split; [discriminate|]. split; [discriminate|].
+      split; [lia|]. split.
+      { exists [FFix 4]. split; [reflexivity|]. repeat constructor. }
+      split; [repeat constructor|]. split; [repeat constructor|discriminate].
+  - constructor; [|constructor].
+    unfold wf_rrset. cbn [rname rdeleting rrds rtype rttl rclass rcovers].
+    split; [exact N3|]. split; [reflexivity|]. split; [discriminate|]. split; [discriminate|]. split; [discriminate|].
+    split; [lia|]. split.
+    { exists [FNameC; FNameC; FFix 20]. split; [reflexivity|]. pieces. }
+    split; [repeat constructor|]. split; [repeat constructor|reflexivity].
+  - constructor; [|constructor].
+    unfold wf_rrset. cbn [rname rdeleting rrds rtype rttl rclass rcovers].
+    split; [exact N3|]. split; [reflexivity|]. split; [discriminate|]. split; [discriminate|]. split; [discriminate|].
+    split; [lia|]. split.
+    { exists [FTxt]. split; [reflexivity|]. repeat constructor.
+      exists [[104; 105]]. split; [discriminate|]. split; [repeat constructor; vm_compute; discriminate|reflexivity]. }
+    split; [repeat constructor|]. split; [repeat constructor|discriminate].
+  - cbn [keys_fresh]. repeat split; repeat constructor.
+  - cbn [keys_fresh]. repeat split; repeat constructor.
+  - cbn [keys_fresh]. repeat split; repeat constructor.
+  - repeat constructor.
+Qed.
+
+Example render_parse_nonvacuous :
+  exists w m', to_wire ex_m None 0 0 false 0 = Ok w /\ zlen w = 147 /\
+               from_wire w None po0 = Ok m' /\ msg_equiv m' ex_m /\
+               (* the case variant WWW.EX.com. was written as a pointer and reads back as www.ex.com. *)
+               map rname (man m') = [n_www; n_www].
+Proof.
+  destruct (to_wire ex_m None 0 0 false 0) as [w| |] eqn:E; try (vm_compute in E; discriminate).
+  destruct (render_parse_partial ex_m 0 0 w ex_m_wf eq_refl E) as (m' & F & EQ).
+  exists w, m'. split; [reflexivity|]. vm_compute in E. injection E as <-.
+  split; [reflexivity|]. split; [exact F|]. split; [exact EQ|].
+  vm_compute in F. injection F as <-. reflexivity.
+Qed.
